@@ -134,7 +134,12 @@ def make_case(rng, i):
                               "value_expr": rng.choice(['"zz_unmapped"', "12345", "None", "('nope',)", "-99"])})
             else:
                 # a State object that does not belong to this machine, through the current_state setter
-                steps.append({"op": "write", "kind": "cs_foreign", "target": None, "valid": False})
+                if rng.random() < 0.5:
+                    steps.append({"op": "write", "kind": "cs_foreign", "target": None, "valid": False})
+                else:
+                    # ... or one that LOOKS like a state of this machine (same id and display name, e.g.
+                    # from another class) but carries a value this machine does not map
+                    steps.append({"op": "write", "kind": "cs_lookalike", "target": None, "like": rng.choice(sids), "valid": False})
         steps.append(st)
     driver = rng.choice(["sync", "inloop"]) if spec["any_async"] else "sync"
     # some callbacks write another valid value to the model field while their transition is in flight
